@@ -592,7 +592,10 @@ class Scheduler:
                 # include it in the list of items
                 if child_items or item in sgraph_items:
                     if transformation.process_ignored_items or not item.is_ignored:
-                        items += (item,) + child_items
+                        items += (item,)
+                    # The children are filtered individually: an ignored scope
+                    # can contain definitions that are not ignored
+                    items += child_items
             # A definition can be reachable more than once (e.g., a module procedure that is also
             # declared in a generic interface of the module), but must be processed only once
             return tuple(dict.fromkeys(items))
